@@ -203,12 +203,19 @@ func parseDirective(vars []RvInstruction, device bool) *RvDirective { //nolint:g
 			}
 
 		case RVExtRV:
-			mech, args := cbor.ArrayShift(v.Value)
-			if len(mech) > 0 {
-				if err := cbor.Unmarshal(mech, &dir.ExtMechanism); err == nil {
-					dir.ExtArguments = args
-				}
+			var ext []cbor.RawBytes
+			if err := cbor.Unmarshal(v.Value, &ext); err != nil || len(ext) == 0 {
+				continue
 			}
+			var mech string
+			if err := cbor.Unmarshal(ext[0], &mech); err != nil {
+				continue
+			}
+			args, err := cbor.Marshal(ext[1:])
+			if err != nil {
+				continue
+			}
+			dir.ExtMechanism, dir.ExtArguments = mech, args
 
 		case RVDelaysec:
 			var secs time.Duration
